@@ -226,7 +226,9 @@ def find_in_scope(
             if strip_str == inc.path:
                 if inc.file is None:
                     return None
-                return Include(inc.file.ast, inc.line_number, inc.path)
+                # The line must exist in the included file
+                line_number = min(inc.line_number, max(1, inc.file.nLines))
+                return Include(inc.file.ast, line_number, inc.path)
 
     # Setup USE search
     use_dict = get_use_tree(scope, {}, obj_tree)
